@@ -34,6 +34,7 @@ func init() {
 
 	addSelfTests("C25",
 		mutation{"allow-list-widened", "tun/server/client_rpc.go", "	case \"Ping\", \"RegisterIdentity\":\n		return ctx, nil", "	case \"Ping\", \"RegisterIdentity\", \"GetNodes\":\n		return ctx, nil", "hook"},
+		mutation{"equivalent-if-chain", "tun/server/client_rpc.go", "	switch method {\n	case \"Ping\", \"RegisterIdentity\":\n		return ctx, nil\n	default:\n		token, verifiedClient, err := extractAuthenticated(ctx)", "	if method == \"Ping\" || method == \"RegisterIdentity\" {\n		return ctx, nil\n	}\n	{\n		token, verifiedClient, err := extractAuthenticated(ctx)", "!hook"},
 		mutation{"token-error-ignored", "tun/server/client_rpc.go", "		if err != nil {\n			return ctx, twirp.Unauthenticated.Errorf(\"failed to verify client token: %w\", err)\n		}", "		if err != nil {\n			s.Logger.Warn(\"failed to verify client token\", zap.Error(err))\n		}", "hook"},
 		mutation{"missing-cert-accepted", "tun/server/client_rpc.go", "	if delegation.Certificate == nil {\n		return nil, nil, twirp.Unauthenticated.Error(\"missing client certificate\")\n	}\n", "", "extract"},
 		mutation{"handler-before-auth", "tun/server/client_rpc.go", "	token, _, err := extractAuthenticated(ctx)\n	if err != nil {\n		return nil, err\n	}\n\n	hostname := strings.Join(generator.MustGenerate(5), \"-\")\n	prefix := tun.ClientHostnamesPrefix(token)\n	if err := s.Chord.PrefixAppend(ctx, []byte(prefix), []byte(hostname)); err != nil {\n		return nil, rpc.WrapErrorKV(prefix, err)\n	}", "	token, _, err := extractAuthenticated(ctx)\n\n	hostname := strings.Join(generator.MustGenerate(5), \"-\")\n	prefix := tun.ClientHostnamesPrefix(token)\n	if err := s.Chord.PrefixAppend(ctx, []byte(prefix), []byte(hostname)); err != nil {\n		return nil, rpc.WrapErrorKV(prefix, err)\n	}\n	if err != nil {\n		return nil, err\n	}", "handler-gate"},
@@ -205,32 +206,75 @@ func runC25(c *Ctx) {
 		if h == nil {
 			c.Failf("hook %s has no body", hf.Name())
 		}
-		for _, r := range successReturns(h) {
-			fs := h.FactsAt(r)
-			// which method names reach this return?
-			_ = fs
-			// several names can share one case body, so collect every case expression of the
-			// clause containing this return
-			names := caseNamesOf(h, r)
-			unauth := len(names) > 0
-			for _, n := range names {
-				if n == "<default>" {
-					unauth = false
+		// Edges on which the routed method is known to be one of the allow-listed names
+		// (switch case or an if / || chain of equalities) are removed; in what remains,
+		// every success return must be cut by both authentication checks. A name outside
+		// the allow-list is simply not removed, so its path needs the checks.
+		isMethod := func(e ast.Expr) bool { return h.Prov(e) == "call:github.com/twitchtv/twirp.MethodName()#0" }
+		var allowedEq func(e ast.Expr) bool
+		allowedEq = func(e ast.Expr) bool {
+			e = ast.Unparen(e)
+			be, ok := e.(*ast.BinaryExpr)
+			if !ok {
+				return false
+			}
+			if be.Op == token.LOR {
+				return allowedEq(be.X) && allowedEq(be.Y)
+			}
+			if be.Op != token.EQL {
+				return false
+			}
+			var other ast.Expr
+			switch {
+			case isMethod(be.X):
+				other = be.Y
+			case isMethod(be.Y):
+				other = be.X
+			default:
+				return false
+			}
+			v, ok := h.ConstVal(other)
+			n := strings.Trim(v, "\"")
+			return ok && allow[n] && svcMethods[n]
+		}
+		letThrough := map[string]bool{}
+		reached, _ := h.Reach(nil, nil, func(b *cfgBlock, si int) bool {
+			for _, at := range h.edgeAtoms(b, si) {
+				if !at.truth {
+					continue
+				}
+				if at.tag != nil {
+					if isMethod(at.tag) {
+						if v, ok := h.ConstVal(at.e); ok && allow[strings.Trim(v, "\"")] && svcMethods[strings.Trim(v, "\"")] {
+							letThrough[strings.Trim(v, "\"")] = true
+							return true
+						}
+					}
+					continue
+				}
+				if allowedEq(at.e) {
+					letThrough["(if)"] = true
+					return true
 				}
 			}
-			if unauth {
-				okNames := len(names) > 0
-				for _, n := range names {
-					if !allow[n] || !svcMethods[n] {
-						okNames = false
-					}
-				}
-				c.Ob("hook", "verifyClientIdentity#unauthenticated-methods", r.Pos(), okNames, fmt.Sprintf("methods let through without authentication %v must be within {Ping, RegisterIdentity}", names))
+			return false
+		})
+		inReduced := map[ast.Node]bool{}
+		for _, n := range reached {
+			inReduced[n] = true
+		}
+		nsucc := 0
+		for _, r := range successReturns(h) {
+			nsucc++
+			if !inReduced[r] {
+				c.Ob("hook", "verifyClientIdentity#unauthenticated-methods", r.Pos(), true, "this success return is reachable only for the allow-listed methods {Ping, RegisterIdentity}")
 				continue
 			}
-			requireAt(c, "hook", "verifyClientIdentity#success-requires-auth", h, r, "every other request is let through only after extractAuthenticated and getClientByToken succeeded",
+			requireAt(c, "hook", "verifyClientIdentity#success-requires-auth", h, r, "outside the allow-list {Ping, RegisterIdentity} a request is let through only after extractAuthenticated and getClientByToken succeeded",
 				reqCallOK(authKeys...), reqCallOK("tun/server.Server.getClientByToken"))
 		}
+		c.Floor("hook success returns", nsucc, 2)
+		c.Extra("hook_allow_listed_edges", len(letThrough))
 		for _, call := range h.CallsTo(true, "tun/server.Server.saveClientToken") {
 			requireAt(c, "hook", "verifyClientIdentity#token-write-requires-auth", h, call, "the hook writes the client token only for an authenticated, registered client",
 				reqCallOK(authKeys...), reqCallOK("tun/server.Server.getClientByToken"))
@@ -884,42 +928,48 @@ func runC30(c *Ctx) {
 	// algorithm table
 	wantAlgo := map[string]string{"KeylessSignRequest_SHA256": "SHA256", "KeylessSignRequest_SHA384": "SHA384", "KeylessSignRequest_SHA512": "SHA512"}
 	seenAlgo := 0
+	isAlgo := func(e ast.Expr) bool { return sg.Prov(e) == "param#1.GetAlgo()" }
 	ast.Inspect(sg.Body, func(n ast.Node) bool {
-		cc, ok := n.(*ast.CaseClause)
-		if !ok {
+		as, ok := n.(*ast.AssignStmt)
+		if !ok || len(as.Lhs) != 1 || len(as.Rhs) != 1 || sg.varOf(as.Lhs[0]) == nil || !strings.Contains(typeStr(sg, as.Lhs[0]), "crypto.SignerOpts") {
 			return true
 		}
-		if cc.List == nil {
-			// default: must return an error, must not assign opts
-			okDef := false
-			for _, st := range cc.Body {
-				if r, ok := st.(*ast.ReturnStmt); ok && len(r.Results) == 2 && isTwirpErr(sg, r.Results[1]) {
-					okDef = true
-				}
-				if _, ok := st.(*ast.AssignStmt); ok {
-					okDef = false
-				}
-			}
-			c.Ob("sign-gate", "Sign#unsupported-algorithm-rejected", cc.Pos(), okDef, "an algorithm outside the table is refused, never defaulted")
-			return true
+		pos, _ := sg.FactsAt(as).EqConsts(sg, isAlgo)
+		name := ""
+		if len(pos) == 1 {
+			name = pos[0]
 		}
-		for _, e := range cc.List {
-			name := constName(sg, e)
-			if want, ok := wantAlgo[name]; ok {
-				seenAlgo++
-				got := ""
-				for _, st := range cc.Body {
-					if as, ok := st.(*ast.AssignStmt); ok && len(as.Rhs) == 1 {
-						got = constName(sg, as.Rhs[0])
-					}
-				}
-				c.Ob("sign-gate", "Sign#algo:"+name, cc.Pos(), got == want, "request algorithm "+name+" selects crypto."+want+"; found crypto."+got)
-			} else {
-				c.Ob("sign-gate", "Sign#algo:"+name, cc.Pos(), false, "unexpected algorithm case")
-			}
+		got := constName(sg, as.Rhs[0])
+		if want, ok := wantAlgo[name]; ok {
+			seenAlgo++
+			c.Ob("sign-gate", "Sign#algo:"+name, as.Pos(), got == want, "request algorithm "+name+" selects crypto."+want+"; found crypto."+got)
+		} else {
+			c.Ob("sign-gate", "Sign#algo:"+name+"->"+got, as.Pos(), false, fmt.Sprintf("the hash option is assigned outside the three enumerated algorithm cases (algorithms known here: %v)", pos))
 		}
 		return true
 	})
+	// an unsupported algorithm is refused: at signer.Sign the algorithm is one of the three
+	for _, s2 := range signs {
+		_, neg := sg.FactsAt(s2).EqConsts(sg, isAlgo)
+		_ = neg
+	}
+	okDef := false
+	for _, r := range sg.Returns() {
+		if len(r.Results) != 2 || !isTwirpErr(sg, r.Results[1]) {
+			continue
+		}
+		_, neg := sg.FactsAt(r).EqConsts(sg, isAlgo)
+		n := 0
+		for _, k := range neg {
+			if _, ok := wantAlgo[k]; ok {
+				n++
+			}
+		}
+		if n == 3 {
+			okDef = true
+		}
+	}
+	c.Ob("sign-gate", "Sign#unsupported-algorithm-rejected", sg.Decl.Pos(), okDef, "an algorithm outside the table is refused with an error, never defaulted")
 	c.Floor("Sign algorithm cases", seenAlgo, 3)
 
 	// computeKeylessTTL
